@@ -5,7 +5,7 @@
    identifiers, uses of identifiers, nested blocks - in source order, so that Go's rule "the scope of a
    local starts after its declaration and ends with the block" can be evaluated exactly.
 
-   [wf_file] is the executable scoping judgement.  The harness tool goskel extracts a skeleton (with the
+   [wf_file] is the executable scoping judgement.  The harness tool goscope extracts a skeleton (with the
    purely SYNTACTIC use kinds KQual/KType/KCon/KVal) from every file the real templates write and the kernel
    re-checks [wf_file extracted = true] on every run.  [testify_skel] / [matryer_skel] are the models of the
    two built-in templates (internal/mock_testify.templ, internal/mock_matryer.templ): they build the
@@ -231,12 +231,12 @@ Definition top_eqb (a b : top) : bool :=
   && items_eqb (norm (map erase (t_items a))) (norm (t_items b)).
 
 (* ------------------------------------------------------------------ template data (input of the models) *)
-(* a rendered type, as the flat item list goskel produces for the type string: IUse KQual q, IUse KType n
+(* a rendered type, as the flat item list goscope produces for the type string: IUse KQual q, IUse KType n
    (KCon n inside constraints), IBlock [IDecl false f ...] for the field names of a struct type *)
 Definition tyitems := list item.
 
 Record pdata := { pn : str; pexp : str (* exported pn *); pty : tyitems; pvariadic : bool;
-                  pany : bool (* variadic of interface{} / any *) }.
+                  pany : bool (* variadic of interface{} / any *); pnil : bool (* Var.Nillable *) }.
 Record rdata := { rn : str; rty : tyitems; riserr : bool; rnil : bool }.
 Record mdata := { mn : str; mps : list pdata; mrs : list rdata;
                   mvisible : list str (* names visible in the method scope when the template runs *) }.
@@ -294,7 +294,28 @@ Definition ctor_name (s : str) : str :=
   | b :: t => (if is_lower b then B "new" else B "New") ++ up b :: t
   end.
 
-Definition ret_name (m : mdata) : str := suggest (mvisible m) (B "ret").
+(* {{ $method.Scope.AllocateName "ret" }}, "returnFunc", "ok": executed only when the method has results
+   (mock_testify.templ after fixes/c03-variadic-multi-return); Gen/Alloc.v is the model of AllocateName *)
+Definition tf_alloc (m : mdata) : list str * (str * str * str) :=
+  let '(s1, r) := allocate (mvisible m) (B "ret") in
+  let '(s2, rf) := allocate s1 (B "returnFunc") in
+  let '(s3, k) := allocate s2 (B "ok") in (s3, (r, rf, k)).
+Definition ret_name (m : mdata) : str := fst (fst (snd (tf_alloc m))).
+Definition rf_name (m : mdata) : str := snd (fst (snd (tf_alloc m))).
+Definition ok_name (m : mdata) : str := snd (snd (tf_alloc m)).
+(* the Run wrapper allocates arg<i> for every nillable non-variadic parameter number i, in order
+   (fixes/c03-typed-run-wrapper), in the same method scope *)
+Fixpoint run_args (s : list str) (i : nat) (ps : list pdata) : list (pdata * option str) :=
+  match ps with
+  | [] => []
+  | p :: t => if pnil p
+              then let '(s', a) := allocate s (B "arg" ++ dec i) in (p, Some a) :: run_args s' (S i) t
+              else (p, None) :: run_args s (S i) t
+  end.
+Definition run_scope (m : mdata) : list str := if nonempty (mrs m) then fst (tf_alloc m) else mvisible m.
+Definition nonvar_ps (m : mdata) : list pdata := if last_variadic (mps m) then removelast (mps m) else mps m.
+Definition arg_names (m : mdata) : list str :=
+  flat_map (fun x => match snd x with Some a => [a] | None => [] end) (run_args (run_scope m) 0 (nonvar_ps m)).
 Fixpoint r_names_from (i n : nat) : list str :=
   match n with 0 => [] | S k => (B "r" ++ dec i) :: r_names_from (S i) k end.
 Definition r_names (m : mdata) : list str := r_names_from 0 (length (mrs m)).
@@ -333,73 +354,101 @@ Definition tf_body (o : topts) (tps : list tpdata) (m : mdata) : list item :=
        [uv true (L "_mock"); uv true (L "_ca")]) in
   if negb has_r then pre ++ called
   else
-    let r := ret_name m in
+    let r := ret_name m in let rf := rf_name m in let okn := ok_name m in
     let ris := r_names m in
     pre ++ called ++ [dv r; IBlock [ub "len"; uv true r; IBlock [ub "panic"]]]
     ++ flat_map (fun x => intent tps (rty (fst x)) ++ [dv (snd x)]) (combine rs ris)
     ++ (if Nat.ltb 1 (length rs)
-        then [IBlock ([uv true r] ++ ptys tps ps ++ rtys tps rs
-                      ++ [dv (L "returnFunc"); dv (L "ok"); uv false (L "ok");
-                          IBlock (uv false (L "returnFunc") :: uvs true (pnames ps))])]
+        then let whole := IBlock ([uv true r] ++ ptys tps ps ++ rtys tps rs
+                                  ++ [dv rf; dv okn; uv false okn; IBlock (uv false rf :: uvs true (pnames ps))]) in
+             whole :: (if var && negb (unroll o) then [whole] else [])
         else [])
     ++ map (fun x => IBlock ([uv true r] ++ ptys tps ps ++ intent tps (rty (fst x))
-                             ++ [dv (L "returnFunc"); dv (L "ok"); uv false (L "ok");
-                                 IBlock (uv false (L "returnFunc") :: uvs true (pnames ps) ++ [uv true (snd x)]);
+                             ++ [dv rf; dv okn; uv false okn;
+                                 IBlock (uv false rf :: uvs true (pnames ps) ++ [uv true (snd x)]);
                                  IBlock (tf_else tps r (snd x) (fst x))]))
            (combine rs ris)
     ++ uvs true ris.
 
-Definition tf_run_closure (tps : list tpdata) (m : mdata) : list item :=
+Definition tf_run_closure (o : topts) (tps : list tpdata) (m : mdata) : list item :=
   let ps := mps m in
-  if last_variadic ps then
-    let elem := match last_p ps with Some p => intent tps (pty p) | None => [] end in
-    [uq mock_q; dv (L "args"); ub "make"] ++ elem ++ [ub "len"; uv false (L "args"); dv (L "variadicArgs");
-     IBlock [uv false (L "args"); dv (L "i"); dv (L "a");
-             IBlock [IBlock [uv false (L "a"); ub "nil";
-                             IBlock ([uv false (L "a")] ++ elem ++ [uv false (L "variadicArgs"); uv false (L "i")])]]];
-     uv true (L "run")]
-    ++ flat_map (fun p => uv false (L "args") :: intent tps (pty p)) (removelast ps)
-    ++ [uv false (L "variadicArgs")]
-  else
-    [uq mock_q; dv (L "args"); uv true (L "run")]
-    ++ flat_map (fun p => uv false (L "args") :: intent tps (pty p)) ps.
+  let ras := run_args (run_scope m) 0 (nonvar_ps m) in
+  let pre := flat_map (fun x => match snd x with
+                                | Some a => intent tps (pty (fst x))
+                                            ++ [dv a; IBlock [uv false (L "args"); ub "nil";
+                                                              IBlock ([uv false (L "args")] ++ intent tps (pty (fst x))
+                                                                      ++ [uv false a])]]
+                                | None => [] end) ras in
+  let run_uses := flat_map (fun x => match snd x with
+                                     | Some a => [uv false a]
+                                     | None => uv false (L "args") :: intent tps (pty (fst x)) end) ras in
+  [uq mock_q; dv (L "args")] ++ pre
+  ++ (if last_variadic ps then
+        let elem := match last_p ps with Some p => intent tps (pty p) | None => [] end in
+        (if unroll o then
+           [ub "make"] ++ elem ++ [ub "len"; uv false (L "args"); dv (L "variadicArgs");
+            IBlock [uv false (L "args"); dv (L "i"); dv (L "a");
+                    IBlock [IBlock [uv false (L "a"); ub "nil";
+                                    IBlock ([uv false (L "a")] ++ elem ++ [uv false (L "variadicArgs"); uv false (L "i")])]]]]
+         else
+           elem ++ [dv (L "variadicArgs");
+                    IBlock [ub "len"; uv false (L "args");
+                            IBlock ([uv false (L "args")] ++ elem ++ [uv false (L "variadicArgs")])]])
+        ++ [uv true (L "run")] ++ run_uses ++ [uv false (L "variadicArgs")]
+      else [uv true (L "run")] ++ run_uses).
 
 Definition sep : str := B "_".
 Definition expecter_name (s : str) := s ++ B "_Expecter".
 Definition call_name (s mname : str) := s ++ sep ++ mname ++ B "_Call".
 
-Definition testify_method (o : topts) (i : idata) (m : mdata) : list top :=
-  let tps := iftps i in let S := ifstruct i in let E := expecter_name S in let C := call_name S (mn m) in
-  let ps := mps m in let rs := mrs m in
-  [ mk_top TMethod (mn m) S
-      (tp_binders tps ++ [utop S] ++ ptys tps ps ++ rtys tps rs ++ [dv (L "_mock")] ++ dvs (pnames ps)
-       ++ tf_body o tps m);
-    mk_top TType C [] (tp_decl tps ++ [IBlock [dv (L "Call")]; uq mock_q]);
-    mk_top TMethod (mn m) E
-      (tp_binders tps ++ [utop E; utop C] ++ tp_inst tps ++ [dv (L "_e")] ++ dvs (pnames ps)
-       ++ [utop C] ++ tp_inst tps ++ [uv true (L "_e")]
-       ++ (if last_variadic ps then [ub "append"] else []) ++ uvs true (pnames ps));
-    mk_top TMethod (L "Run") C
-      (tp_binders tps ++ [utop C] ++ ptys tps ps ++ [utop C] ++ tp_inst tps ++ [dv (L "_c"); dv (L "run")]
-       ++ [uv true (L "_c"); IBlock (tf_run_closure tps m); uv true (L "_c")]);
-    mk_top TMethod (L "Return") C
-      (tp_binders tps ++ [utop C] ++ rtys tps rs ++ [utop C] ++ tp_inst tps ++ [dv (L "_c")] ++ dvs (rnames rs)
-       ++ [uv true (L "_c")] ++ uvs true (rnames rs) ++ [uv true (L "_c")]);
-    mk_top TMethod (L "RunAndReturn") C
-      (tp_binders tps ++ [utop C] ++ ptys tps ps ++ rtys tps rs ++ [utop C] ++ tp_inst tps
-       ++ [dv (L "_c"); dv (L "run"); uv true (L "_c"); uv true (L "run"); uv true (L "_c")]) ].
+Section TestifyTops.
+Variables (o : topts) (i : idata).
+Let tps := iftps i.
+Let S := ifstruct i.
+Let E := expecter_name (ifstruct i).
+Definition tf_mock_top (m : mdata) : top :=
+  mk_top TMethod (mn m) S
+    (tp_binders tps ++ [utop S] ++ ptys tps (mps m) ++ rtys tps (mrs m) ++ [dv (L "_mock")] ++ dvs (pnames (mps m))
+     ++ tf_body o tps m).
+Definition tf_call_type_top (m : mdata) : top :=
+  mk_top TType (call_name S (mn m)) [] (tp_decl tps ++ [IBlock [dv (L "Call")]; uq mock_q]).
+Definition tf_expecter_method_top (m : mdata) : top :=
+  let C := call_name S (mn m) in let ps := mps m in
+  mk_top TMethod (mn m) E
+    (tp_binders tps ++ [utop E; utop C] ++ tp_inst tps ++ [dv (L "_e")] ++ dvs (pnames ps)
+     ++ [utop C] ++ tp_inst tps ++ [uv true (L "_e")]
+     ++ (if last_variadic ps then [ub "append"] else []) ++ uvs true (pnames ps)).
+Definition tf_run_top (m : mdata) : top :=
+  let C := call_name S (mn m) in
+  mk_top TMethod (L "Run") C
+    (tp_binders tps ++ [utop C] ++ ptys tps (mps m) ++ [utop C] ++ tp_inst tps ++ [dv (L "_c"); dv (L "run")]
+     ++ [uv true (L "_c"); IBlock (tf_run_closure o tps m); uv true (L "_c")]).
+Definition tf_return_top (m : mdata) : top :=
+  let C := call_name S (mn m) in let rs := mrs m in
+  mk_top TMethod (L "Return") C
+    (tp_binders tps ++ [utop C] ++ rtys tps rs ++ [utop C] ++ tp_inst tps ++ [dv (L "_c")] ++ dvs (rnames rs)
+     ++ [uv true (L "_c")] ++ uvs true (rnames rs) ++ [uv true (L "_c")]).
+Definition tf_runandreturn_top (m : mdata) : top :=
+  let C := call_name S (mn m) in
+  mk_top TMethod (L "RunAndReturn") C
+    (tp_binders tps ++ [utop C] ++ ptys tps (mps m) ++ rtys tps (mrs m) ++ [utop C] ++ tp_inst tps
+     ++ [dv (L "_c"); dv (L "run"); uv true (L "_c"); uv true (L "run"); uv true (L "_c")]).
+Definition testify_method (m : mdata) : list top :=
+  [tf_mock_top m; tf_call_type_top m; tf_expecter_method_top m; tf_run_top m; tf_return_top m; tf_runandreturn_top m].
 
-Definition testify_iface (o : topts) (i : idata) : list top :=
-  let tps := iftps i in let S := ifstruct i in let E := expecter_name S in
-  [ mk_top TFunc (ctor_name S) []
-      (tp_decl tps ++ [uq mock_q; utop S] ++ tp_inst tps ++ [dv (L "t"); utop S] ++ tp_inst tps
-       ++ [dv (L "mock"); uv true (L "mock"); uv true (L "t"); uv true (L "t");
-           IBlock [uv true (L "mock"); uv true (L "t")]; uv true (L "mock")]);
-    mk_top TType S [] (tp_decl tps ++ [IBlock [dv (L "Mock")]; uq mock_q]);
-    mk_top TType E [] (tp_decl tps ++ [IBlock [dv (L "mock")]; uq mock_q]);
-    mk_top TMethod (L "EXPECT") S
-      (tp_binders tps ++ [utop S; utop E] ++ tp_inst tps ++ [dv (L "_m"); utop E] ++ tp_inst tps ++ [uv true (L "_m")]) ]
-  ++ flat_map (testify_method o i) (ifms i).
+Definition tf_ctor_top : top :=
+  mk_top TFunc (ctor_name S) []
+    (tp_decl tps ++ [uq mock_q; utop S] ++ tp_inst tps ++ [dv (L "t"); utop S] ++ tp_inst tps
+     ++ [dv (L "mock"); uv true (L "mock"); uv true (L "t"); uv true (L "t");
+         IBlock [uv true (L "mock"); uv true (L "t")]; uv true (L "mock")]).
+Definition tf_struct_top : top := mk_top TType S [] (tp_decl tps ++ [IBlock [dv (L "Mock")]; uq mock_q]).
+Definition tf_expecter_type_top : top := mk_top TType E [] (tp_decl tps ++ [IBlock [dv (L "mock")]; uq mock_q]).
+Definition tf_expect_top : top :=
+  mk_top TMethod (L "EXPECT") S
+    (tp_binders tps ++ [utop S; utop E] ++ tp_inst tps ++ [dv (L "_m"); utop E] ++ tp_inst tps ++ [uv true (L "_m")]).
+Definition testify_iface : list top :=
+  [tf_ctor_top; tf_struct_top; tf_expecter_type_top; tf_expect_top] ++ flat_map testify_method (ifms i).
+End TestifyTops.
 
 (* the registry of the file as the data model left it (imports in path order) *)
 Definition reg_of (f : fdata) : registry :=
@@ -441,45 +490,54 @@ Definition reset_name (m : str) := B "Reset" ++ m ++ B "Calls".
 
 Definition mt_lock_triple : list item := [uv true (L "mock"); ub "nil"; uv true (L "mock"); uv true (L "mock")].
 
-Definition matryer_method (o : mopts) (i : idata) (m : mdata) : list top :=
-  let tps := iftps i in let S := ifstruct i in let ps := mps m in let rs := mrs m in
-  [ mk_top TMethod (mn m) S
-      (tp_binders tps ++ [utop S] ++ ptys tps ps ++ rtys tps rs ++ [dv (L "mock")] ++ dvs (pnames ps)
-       ++ (if stub_impl o then [] else [IBlock [uv true (L "mock"); ub "nil"; IBlock [ub "panic"]]])
-       ++ [fields (pexps ps)] ++ ptys tps ps ++ uvs true (pnames ps) ++ [dv (L "callInfo")]
-       ++ [uv true (L "mock"); ub "append"; uv true (L "mock"); uv true (L "callInfo"); uv true (L "mock");
-           uv true (L "mock")]
-       ++ (if stub_impl o
-           then [IBlock [uv true (L "mock"); ub "nil";
-                         IBlock (flat_map (fun r => intent tps (rty r) ++ [dv (rn r)]) rs ++ uvs false (rnames rs))]]
-           else [])
-       ++ [uv true (L "mock")] ++ uvs true (pnames ps));
-    mk_top TMethod (calls_name (mn m)) S
-      (tp_binders tps ++ [utop S; fields (pexps ps)] ++ ptys tps ps ++ [dv (L "mock"); fields (pexps ps)]
-       ++ ptys tps ps ++ [dv (L "calls"); uv true (L "mock"); uv true (L "mock"); uv true (L "calls");
-                          uv true (L "mock"); uv true (L "calls")]) ]
-  ++ (if with_resets o
-      then [mk_top TMethod (reset_name (mn m)) S (tp_binders tps ++ [utop S; dv (L "mock")] ++ mt_lock_triple)]
-      else []).
+Section MatryerTops.
+Variables (o : mopts) (f : fdata) (i : idata).
+Let tps := iftps i.
+Let S := ifstruct i.
+Definition mt_method_top (m : mdata) : top :=
+  let ps := mps m in let rs := mrs m in
+  mk_top TMethod (mn m) S
+    (tp_binders tps ++ [utop S] ++ ptys tps ps ++ rtys tps rs ++ [dv (L "mock")] ++ dvs (pnames ps)
+     ++ (if stub_impl o then [] else [IBlock [uv true (L "mock"); ub "nil"; IBlock [ub "panic"]]])
+     ++ [fields (pexps ps)] ++ ptys tps ps ++ uvs true (pnames ps) ++ [dv (L "callInfo")]
+     ++ [uv true (L "mock"); ub "append"; uv true (L "mock"); uv true (L "callInfo"); uv true (L "mock");
+         uv true (L "mock")]
+     ++ (if stub_impl o
+         then [IBlock [uv true (L "mock"); ub "nil";
+                       IBlock (flat_map (fun r => intent tps (rty r) ++ [dv (rn r)]) rs ++ uvs false (rnames rs))]]
+         else [])
+     ++ [uv true (L "mock")] ++ uvs true (pnames ps)).
+Definition mt_calls_top (m : mdata) : top :=
+  let ps := mps m in
+  mk_top TMethod (calls_name (mn m)) S
+    (tp_binders tps ++ [utop S; fields (pexps ps)] ++ ptys tps ps ++ [dv (L "mock"); fields (pexps ps)]
+     ++ ptys tps ps ++ [dv (L "calls"); uv true (L "mock"); uv true (L "mock"); uv true (L "calls");
+                        uv true (L "mock"); uv true (L "calls")]).
+Definition mt_reset_top (m : mdata) : top :=
+  mk_top TMethod (reset_name (mn m)) S (tp_binders tps ++ [utop S; dv (L "mock")] ++ mt_lock_triple).
+Definition matryer_method (m : mdata) : list top :=
+  [mt_method_top m; mt_calls_top m] ++ (if with_resets o then [mt_reset_top m] else []).
 
-Definition matryer_iface (o : mopts) (f : fdata) (i : idata) : list top :=
-  let tps := iftps i in let S := ifstruct i in let ms := ifms i in
-  (if skip_ensure o then []
-   else [mk_top TVar blank []
-           ((if f_inpkg f then [IUse KPkgType (ifname i)] else [uq (f_srcname f)])
-            ++ ensure_args tps ++ [utop S] ++ ensure_args tps)])
-  ++ [mk_top TType S []
-        (tp_decl tps
-         ++ [fields (map (fun m => func_name (mn m)) ms ++ [L "calls"] ++ map (fun m => lock_name (mn m)) ms)]
-         ++ flat_map (fun m => ptys tps (mps m) ++ rtys tps (mrs m)) ms
-         ++ [fields (map mn ms)]
-         ++ flat_map (fun m => fields (pexps (mps m)) :: ptys tps (mps m)) ms
-         ++ map (fun _ => uq (sync_q f)) ms)]
-  ++ flat_map (matryer_method o i) ms
-  ++ (if with_resets o
-      then [mk_top TMethod (L "ResetCalls") S
-              (tp_binders tps ++ [utop S; dv (L "mock")] ++ flat_map (fun _ => mt_lock_triple) ms)]
-      else []).
+Definition mt_ensure_top : top :=
+  mk_top TVar blank []
+    ((if f_inpkg f then [IUse KPkgType (ifname i)] else [uq (f_srcname f)])
+     ++ ensure_args tps ++ [utop S] ++ ensure_args tps).
+Definition mt_struct_top : top :=
+  let ms := ifms i in
+  mk_top TType S []
+    (tp_decl tps
+     ++ [fields (map (fun m => func_name (mn m)) ms ++ [L "calls"] ++ map (fun m => lock_name (mn m)) ms)]
+     ++ flat_map (fun m => ptys tps (mps m) ++ rtys tps (mrs m)) ms
+     ++ [fields (map mn ms)]
+     ++ flat_map (fun m => fields (pexps (mps m)) :: ptys tps (mps m)) ms
+     ++ map (fun _ => uq (sync_q f)) ms).
+Definition mt_resetall_top : top :=
+  mk_top TMethod (L "ResetCalls") S
+    (tp_binders tps ++ [utop S; dv (L "mock")] ++ flat_map (fun _ => mt_lock_triple) (ifms i)).
+Definition matryer_iface : list top :=
+  (if skip_ensure o then [] else [mt_ensure_top]) ++ [mt_struct_top] ++ flat_map matryer_method (ifms i)
+  ++ (if with_resets o then [mt_resetall_top] else []).
+End MatryerTops.
 
 Definition matryer_skel (o : mopts) (f : fdata) : skeleton :=
   {| s_imports := imports_of (matryer_reg f);
@@ -515,39 +573,34 @@ Definition skel_diff (model extracted : skeleton) : list nat :=
 
 
 (* ------------------------------------------------------------------ guards *)
-(* identifiers the testify template declares or uses itself in the functions that also bind the method's
-   parameters (the mock method and the expecter method), besides r0..rn-1 and the allocated ret *)
-Definition tf_taboo : list str :=
-  [L "_mock"; L "_e"; L "tmpRet"; L "_va"; L "_i"; L "_ca"; L "returnFunc"; L "ok";
-   L "len"; L "make"; L "append"; L "panic"; L "nil"; L "mock"].
-Definition mt_taboo : list str := [L "mock"; L "callInfo"; L "append"; L "nil"; L "panic"].
-(* every variable the templates declare anywhere: a type name or qualifier spelled like one of them is captured *)
+Definition builtins : list str := [L "len"; L "make"; L "append"; L "panic"; L "nil"].
+(* variables the testify template declares with a fixed spelling, per function:
+   mock method: _mock tmpRet _va _i _ca; expecter: _e; Run/Return/RunAndReturn: _c run args variadicArgs i a;
+   EXPECT: _m; constructor: t mock *)
 Definition tf_vars : list str :=
-  [L "_mock"; L "_m"; L "_e"; L "_c"; L "t"; L "mock"; L "tmpRet"; L "_va"; L "_i"; L "_ca"; L "returnFunc"; L "ok";
+  [L "_mock"; L "_m"; L "_e"; L "_c"; L "t"; L "mock"; L "tmpRet"; L "_va"; L "_i"; L "_ca";
    L "run"; L "args"; L "variadicArgs"; L "i"; L "a"].
 Definition mt_vars : list str := [L "mock"; L "callInfo"; L "calls"].
+(* what a PARAMETER of a testify-mocked method must not be called: the fixed variables of the two functions that
+   bind the parameters (mock method, expecter method), the predeclared identifiers and the qualifier they use *)
+Definition tf_taboo : list str := [L "_mock"; L "_e"; L "tmpRet"; L "_va"; L "_i"; L "_ca"] ++ builtins ++ [mock_q].
+Definition mt_taboo : list str := [L "mock"; L "callInfo"; L "append"; L "nil"; L "panic"].
 
 Definition ty_quals (l : tyitems) : list str :=
   flat_map (fun i => match i with IUse KQual n => [n] | _ => [] end) l.
 Definition ty_bares (l : tyitems) : list str :=
   flat_map (fun i => match i with IUse KType n | IUse KCon n => [n] | _ => [] end) l.
 Definition ty_idents (l : tyitems) : list str := ty_quals l ++ ty_bares l.
-(* shape of a rendered type: uses and closed blocks of distinct field names *)
 Definition field_block_ok (l : list item) : bool :=
-  forallb (fun i => match i with IDecl false _ => true | _ => false end) l
-  && nodupb (filter (fun n => negb (seqb n blank))
-                    (flat_map (fun i => match i with IDecl _ n => [n] | _ => [] end) l)).
-Definition ty_shape_ok (l : tyitems) : bool :=
-  forallb (fun i => match i with
-                    | IUse KQual _ | IUse KType _ | IUse KCon _ => true
-                    | IBlock fs => field_block_ok fs
-                    | _ => false end) l.
+  forallb (fun i => match i with IDecl false n => negb (seqb n blank) | _ => false end) l
+  && nodupb (flat_map (fun i => match i with IDecl _ n => [n] | _ => [] end) l).
 
 Definition sig_idents (tps : list tpdata) (m : mdata) : list str :=
   flat_map (fun p => ty_idents (pty p)) (mps m) ++ flat_map (fun r => ty_idents (rty r)) (mrs m)
   ++ flat_map (fun t => ty_idents (tcon t)) tps ++ map tdecl tps.
+Definition tp_idents (tps : list tpdata) : list str := flat_map (fun t => ty_idents (tcon t)) tps ++ map tdecl tps.
 
-(* -- finding classes -- *)
+(* ---- finding classes (each has a ..._refuted witness in Properties/C01.v) ---- *)
 (* rows 17b/C14: a parameter or result spelled like a type name, qualifier or type parameter of its own signature *)
 Definition g_capture (tps : list tpdata) (m : mdata) : bool :=
   disjointb (pnames (mps m) ++ rnames (mrs m)) (sig_idents tps m).
@@ -556,12 +609,20 @@ Definition g_tparams (tps : list tpdata) : bool := forallb (fun t => seqb (tdecl
 (* row 17: testify parameters / results spelled like the template's own identifiers *)
 Definition g_tf_params (m : mdata) : bool := disjointb (pnames (mps m)) (tf_taboo ++ r_names m).
 Definition g_tf_results (m : mdata) : bool := negb (smem (L "_c") (rnames (mrs m))).
-(* a type name, qualifier or type parameter spelled like a variable of the template (e.g. a package called mock) *)
-Definition g_tf_types (tps : list tpdata) (m : mdata) : bool :=
-  disjointb (sig_idents tps m) (tf_vars ++ ret_name m :: r_names m).
+(* a type name, qualifier or type parameter spelled like a variable (or predeclared identifier) the template
+   uses - e.g. a package called mock - or like one of the generated types *)
+Definition tf_gen_types (s : str) (ms : list mdata) : list str :=
+  s :: expecter_name s :: map (fun m => call_name s (mn m)) ms.
+Definition g_tf_types (s : str) (ms : list mdata) (tps : list tpdata) (m : mdata) : bool :=
+  disjointb (sig_idents tps m)
+            (tf_vars ++ builtins ++ [ret_name m; rf_name m; ok_name m] ++ arg_names m ++ r_names m ++ tf_gen_types s ms).
+Definition g_tf_tps (s : str) (ms : list mdata) (tps : list tpdata) : bool :=
+  disjointb (tp_idents tps) (tf_vars ++ builtins ++ tf_gen_types s ms).
 Definition g_mt_params (m : mdata) : bool := disjointb (pnames (mps m)) mt_taboo.
 Definition g_mt_fields (m : mdata) : bool := nodupb (pexps (mps m)).
-Definition g_mt_types (tps : list tpdata) (m : mdata) : bool := disjointb (sig_idents tps m) mt_vars.
+Definition g_mt_types (s : str) (tps : list tpdata) (m : mdata) : bool :=
+  disjointb (sig_idents tps m) (mt_vars ++ builtins ++ [s]).
+Definition g_mt_tps (s : str) (tps : list tpdata) : bool := disjointb (tp_idents tps) (mt_vars ++ builtins ++ [s]).
 (* row 19: the ensure line instantiates a generic interface with each parameter's constraint spelled as a type *)
 Definition g_mt_ensure_arg (tps : list tpdata) (t : tpdata) : bool :=
   match tens t with
@@ -570,48 +631,90 @@ Definition g_mt_ensure_arg (tps : list tpdata) (t : tpdata) : bool :=
   end.
 (* row 19: out of package the ensure line says <source package name>.<Interface>: needs that import, under that name *)
 Definition g_mt_ensure_import (f : fdata) : bool := f_inpkg f || smem (f_srcname f) (map snd (f_imports f)).
+(* a source import whose qualifier is `mock` collides with the import the testify template hard-codes *)
+Definition g_tf_mock_import (f : fdata) : bool :=
+  negb (smem mock_q (map snd (f_imports f))) && negb (smem testify_path (map fst (f_imports f))).
 
 Definition tf_guards_iface (i : idata) : bool :=
-  g_tparams (iftps i)
-  && forallb (fun m => g_capture (iftps i) m && g_tf_params m && g_tf_results m && g_tf_types (iftps i) m) (ifms i).
+  g_tparams (iftps i) && g_tf_tps (ifstruct i) (ifms i) (iftps i)
+  && forallb (fun m => g_capture (iftps i) m && g_tf_params m && g_tf_results m
+                       && g_tf_types (ifstruct i) (ifms i) (iftps i) m) (ifms i).
 Definition mt_guards_iface (o : mopts) (f : fdata) (i : idata) : bool :=
-  g_tparams (iftps i)
-  && forallb (fun m => g_capture (iftps i) m && g_mt_params m && g_mt_fields m && g_mt_types (iftps i) m) (ifms i)
+  g_tparams (iftps i) && g_mt_tps (ifstruct i) (iftps i)
+  && forallb (fun m => g_capture (iftps i) m && g_mt_params m && g_mt_fields m
+                       && g_mt_types (ifstruct i) (iftps i) m) (ifms i)
   && (skip_ensure o || (g_mt_ensure_import f && forallb (g_mt_ensure_arg (iftps i)) (iftps i))).
-(* a source import whose qualifier is `mock` collides with the import the testify template hard-codes *)
-Definition g_tf_mock_import (f : fdata) : bool := negb (smem mock_q (map snd (f_imports f))).
 
 Definition tf_guards (f : fdata) : bool := g_tf_mock_import f && forallb tf_guards_iface (f_ifaces f).
 Definition mt_guards (o : mopts) (f : fdata) : bool := forallb (mt_guards_iface o f) (f_ifaces f).
 
-(* -- what the data model owes (C14 / C15): checked on every case, not part of the finding classes -- *)
-Definition names_ok (ns : list str) : bool := nodupb ns && forallb (fun n => negb (seqb n blank) && nonempty n) ns.
-Definition types_known (f : fdata) (known : list str) (tps : list tpdata) (con : bool) (ty : tyitems) : bool :=
-  ty_shape_ok ty
-  && forallb (fun q => smem q (map snd (f_imports f))) (ty_quals ty)
-  && forallb (fun n => smem n (map torig tps)
-                       || ((smem n known || smem n universe_types || (con && seqb n comparable_))
-                           && negb (smem n (map snd (f_imports f))))) (ty_bares ty).
-Definition d_method (f : fdata) (known : list str) (tps : list tpdata) (m : mdata) : bool :=
-  names_ok (pnames (mps m)) && names_ok (rnames (mrs m))
-  && forallb (fun p => types_known f known tps false (pty p)) (mps m)
-  && forallb (fun r => types_known f known tps false (rty r)) (mrs m)
-  && forallb (fun p => negb (pvariadic p)) (removelast (mps m)).
-Definition d_iface (f : fdata) (known : list str) (i : idata) : bool :=
+(* ---- what the data model and the file context owe (C14 / C15 / configuration): checked on every case ---- *)
+Definition names_ok (ns : list str) : bool := nodupb ns && forallb (fun n => negb (seqb n blank)) ns.
+(* a rendered type: uses and closed blocks of distinct field names; every qualifier is an import of the file, every
+   bare name is a type parameter of the interface or a type of the destination package / a predeclared type *)
+Definition ty_item_known (c : fctx) (tps : list tpdata) (i : item) : bool :=
+  match i with
+  | IUse KQual q => smem q (c_quals c) && negb (smem q (map torig tps))
+  | IUse KType n => smem n (map torig tps) || pkg_type_ok c n
+  | IUse KCon n => smem n (map torig tps) || pkg_type_ok c n || seqb n comparable_
+  | IBlock fs => field_block_ok fs
+  | _ => false
+  end.
+Definition types_known (c : fctx) (tps : list tpdata) (ty : tyitems) : bool := forallb (ty_item_known c tps) ty.
+(* shape of the names the template allocates or numbers: always true (ret/returnFunc/ok/arg<i> with a numeric
+   suffix, r<i>), checked rather than proved *)
+Definition d_tf_names (m : mdata) : bool :=
+  nodupb (arg_names m ++ r_names m)
+  && disjointb ([ret_name m; rf_name m; ok_name m] ++ arg_names m ++ r_names m) (tf_vars ++ builtins ++ [mock_q; blank])
+  && disjointb (r_names m) [ret_name m; rf_name m; ok_name m].
+Definition d_method (c : fctx) (tps : list tpdata) (m : mdata) : bool :=
+  names_ok (pnames (mps m)) && names_ok (rnames (mrs m)) && names_ok (pexps (mps m))
+  && forallb (fun p => types_known c tps (pty p)) (mps m)
+  && forallb (fun r => types_known c tps (rty r)) (mrs m)
+  && forallb (fun n => smem n (mvisible m)) (pnames (mps m))      (* the method scope sees its parameters *)
+  && d_tf_names m.
+Definition d_iface (c : fctx) (i : idata) : bool :=
   names_ok (map tdecl (iftps i))
-  && forallb (fun t => types_known f known (iftps i) true (tcon t)) (iftps i)
-  && forallb (d_method f known (iftps i)) (ifms i).
+  && forallb (fun t => types_known c (iftps i) (tcon t)) (iftps i)
+  && forallb (d_method c (iftps i)) (ifms i).
 Definition all_type_quals (f : fdata) : list str :=
   flat_map (fun i => flat_map (fun t => ty_quals (tcon t)) (iftps i)
                      ++ flat_map (fun m => flat_map (fun p => ty_quals (pty p)) (mps m)
                                            ++ flat_map (fun r => ty_quals (rty r)) (mrs m)) (ifms i)) (f_ifaces f).
-(* known: the type names of the destination package (this file's included) *)
-Definition data_ok (f : fdata) (known : list str) : bool :=
+Definition d_builtins (c : fctx) : bool :=
+  forallb (fun n => smem n universe_vals && negb (smem n (c_vals c)) && negb (smem n (c_types c))
+                    && negb (smem n (c_quals c))) builtins.
+(* c: the file context of the generated file (skel_ctx of the model skeleton) *)
+Definition data_ok (f : fdata) (c : fctx) : bool :=
   nodupb (map fst (f_imports f)) && names_ok (map snd (f_imports f))
   && forallb (fun q => negb (seqb q dot)) (map snd (f_imports f))
   && forallb (fun q => smem q (all_type_quals f)) (map snd (f_imports f))      (* only needed imports *)
   && nonempty (f_ifaces f)
-  && forallb (d_iface f known) (f_ifaces f).
+  && d_builtins c
+  && forallb (d_iface c) (f_ifaces f).
+
+(* matryer, ensure line: the type arguments are types of the destination file *)
+Definition d_mt_ensure (o : mopts) (f : fdata) (c : fctx) : bool :=
+  skip_ensure o
+  || forallb (fun i => (negb (f_inpkg f) || pkg_type_ok c (ifname i))
+                       && forallb (fun t => match tens t with Some ty => types_known c [] ty | None => true end) (iftps i))
+             (f_ifaces f).
+
+(* matryer: the generated field names are distinct (method names are, by Go; <M>Func / calls / lock<M> by their
+   shape) and the sync qualifier is not a type parameter of the interface: always true, checked rather than proved *)
+Definition d_mt_iface (f : fdata) (i : idata) : bool :=
+  negb (seqb (ifstruct i) blank)
+  && names_ok (map (fun m => func_name (mn m)) (ifms i) ++ [L "calls"] ++ map (fun m => lock_name (mn m)) (ifms i))
+  && names_ok (map mn (ifms i))
+  && negb (smem (sync_q f) (map tdecl (iftps i))).
+Definition d_mt (o : mopts) (f : fdata) (c : fctx) : bool :=
+  d_mt_ensure o f c && forallb (d_mt_iface f) (f_ifaces f).
+(* testify: the generated type names are not blank and not spelled like a variable of the template or a parameter *)
+Definition d_tf_iface (i : idata) : bool :=
+  negb (seqb (ifstruct i) blank)
+  && disjointb (tf_gen_types (ifstruct i) (ifms i)) tf_vars
+  && forallb (fun m => disjointb (pnames (mps m)) (tf_gen_types (ifstruct i) (ifms i))) (ifms i).
+Definition d_tf (f : fdata) : bool := forallb d_tf_iface (f_ifaces f).
 
 (* no collision among the generated top-level names, with the rest of the package, or with the imports:
    depends on the configured struct names and on the API-collision exclusion of the property text *)
